@@ -158,7 +158,7 @@ def run (o : EncodingOrdering) (comps defs : String) : String :=
     -- the type under test is a definition of the module as well (`Tst`); it contains no
     -- reference to itself and nothing refers to it
     match emit env o c with
-    | none => "abort"
+    | none => "abort"      -- unreachable (`C16.pipeline_terminates`): the resolver always returns
     | some r => render emittedStr r
   | _, _ => "bad-op"
 
